@@ -35,6 +35,36 @@ CHECKS = {
     "C14": ("exploration", "three-way set-agreement monitor (lib_deps / #include / instantiated classes) + compile with only the included libraries visible", "differential",
             "all combinations of 0-2 servos (before / inside the main loop), 0-2 parallel and 0-2 I2C LCDs with and without other devices and actions are enumerated; a sample (quick) or all (thorough) are compiled and run",
             "per-library mock headers live in separate include directories passed only when the sketch includes them"),
+    "C02": ("exploration", "type-witness monitor (sys.settrace types per name vs emitted C++ declarations) + differential trace monitor", "differential",
+            "every declaration of generated type-stable programs must be able to hold the Python types a tracer saw for that name; printed values are compared as in C01",
+            "an int held in a C float is not a narrowing; witnesses of open findings re-run"),
+    "C03": ("exploration", "metamorphic 4-way trace equality (P / P' on firmware and CPython)", "differential",
+            "pairs that Python cannot tell apart (literal vs variable vs name-free expression; dead and live mutations) over 13 fold sites are executed on both sides",
+            "branch conditions read a scripted analog input so that the folder cannot decide them; accept/reject asymmetry is not judged"),
+    "C04": ("exploration", "per-pin level/time trace monitor vs instrumented host classes + clamp monitor on raw pin events", "differential",
+            "random in-range actuator histories are compared event by event with the host classes; out-of-range histories are checked by a range monitor on analogWrite/servo events",
+            "tolerances are the statement's: motor duty +-1, servo +-1 at ties, < 1 ms per fractional delay"),
+    "C05": ("exploration", "temporal monitors over the firmware trace (unique statement markers, configure-before-use) + CPython comparison for N = 0..3", "differential",
+            "markers exactly once / once per pass in source order; pinMode/Serial.begin/attach/LCD begin before first use; button sampled once per pass first; main-loop break rejected",
+            "scripts declaring a device inside the loop body are not compared with CPython (fresh Python object per pass vs one hoisted device)"),
+    "C06": ("exploration", "compiler-as-oracle monitor (g++ AVR-like front end, no C++ std headers) + structure monitor + string-escape differential", "differential",
+            "every accepted script of three generators is compiled; a sample is linked against the mock libraries; string-literal fuzz is run and compared with CPython",
+            "g++ -std=gnu++11 -fpermissive -nostdinc++ approximates avr-gcc; exceptions left enabled"),
+    "C09": ("exploration", "ASan+UBSan (explore then gate runs) + per-pass live-heap monitor vs CPython live-data measure", "differential",
+            "list/str-heavy programs run for 6 passes under the sanitizers; heap bytes after each pass must not grow while Python's live data is constant",
+            "red-zone sanitizers: 'no report on these executions', not memory safety; __sanitizer_get_current_allocated_bytes is the heap ledger"),
+    "C15": ("exploration", "trace monitors with scripted digitalRead/analogRead/pulseIn tapes and a virtual clock + host Button replay", "differential",
+            "reads per pass, on_click vs rising edges, is_pressed vs sample, analogRead freshness, trigger count/spacing, retry and fallback value are checked on the firmware log",
+            "60 ms rule judged between triggers whose predecessor happened at millis() > 0"),
+    "C16": ("exploration", "tone-protocol state machine replayed over tone/noTone/delay events + pinned score table", "differential",
+            "every buzzer call of random histories (literal and run-time, incl. zero/negative arguments) is judged between per-call serial markers",
+            "score table pinned in the check; host Buzzer is a no-op stub, so the oracle is the specification"),
+    "C17": ("exploration", "simulated HD44780 cell matrix (mock LiquidCrystal*) vs host LCD.buffer after every call", "differential",
+            "random LCD sizes/wirings and call sequences; cell matrix, backlight level/flag and CGRAM compared with the host object after each call",
+            "ASCII text; in-range row/column; inexact progress bars may differ by one cell and are wiped before the next comparison"),
+    "C18": ("exploration", "per-pass frame/time monitor on the firmware + icontract postconditions on host LCD.animate/tick under random tick schedules", "differential",
+            "no delay in the injected tick, frames inside the row, static rows untouched, pacing >= speed_ms, non-looping stop within 2(len+cols)+4 steps, looping still active after >= 3B passes",
+            "unbounded 'never stops' restated as bounded progress"),
 }
 
 NOT_YET = {}
